@@ -467,7 +467,7 @@ func genCoreEvents(c *explore.C) Case {
 	return Case{Doc: d, Render: r}
 }
 
-// genCoreText: full product — text shapes of <=2 lines x <=2 runs x {no block, block} x 3 texts,
+// genCoreText: full product — text shapes of <=2 lines x <=2 runs x {no block, block} x 4 texts (one ending in a space),
 // break kind, customary and reversed column order.
 func genCoreText(c *explore.C) Case {
 	d := coreDoc(c)
@@ -477,7 +477,7 @@ func genCoreText(c *explore.C) Case {
 		var line []ssa.Run
 		nr := explore.Pick(c, "event.nruns", 1, 2)
 		for r := 0; r < nr; r++ {
-			line = append(line, ssa.Run{Block: explore.Pick(c, "event.block", "", `{\i1}`), Text: explore.Pick(c, "event.text", "x", "a, b", "7")})
+			line = append(line, ssa.Run{Block: explore.Pick(c, "event.block", "", `{\i1}`), Text: explore.Pick(c, "event.text", "x", "a, b", "7", "b ")})
 		}
 		e.Lines = append(e.Lines, line)
 	}
